@@ -5,6 +5,7 @@ mod c03;
 mod c06;
 mod c09;
 mod c10;
+mod c11;
 mod c12;
 mod c13;
 mod c14;
@@ -72,6 +73,7 @@ fn main() {
         "c06" => c06::run(&opts),
         "c09" => c09::run(&opts),
         "c10" => c10::run(&opts),
+        "c11" => c11::run(&opts),
         "c12" => c12::run(&opts),
         "c13" => c13::run(&opts),
         "c14" => c14::run(&opts),
